@@ -40,7 +40,7 @@ def main():
     res = {}
     for tag, root in (("mut", d), ("orig", "/repo")):
         exe = f"/tmp/seeded_demo_{a.id}_{tag}"
-        c = sh(["g++", "-std=c++17", "-O1", "-w", f"-I{root}/include", f"-I{root}/_build/include", f"-I{root}/tests",
+        c = sh(["g++", "-std=c++17", "-O1", "-w", f"-I{root}/include", f"-I{root}/_build/include", f"-I{root}/tests", f"-I{root}",
                 os.path.join(out, "demo.cpp"), f"{root}/_build/lib/libCrab.a", "-lgmp", "-o", exe])
         if c.returncode != 0:
             print(f"demo does not compile against {root}:\n{c.stdout[-1500:]}")
